@@ -108,6 +108,12 @@ CLAIMED = {
          "history is createPRISM of the System's current meaning), create_refused_iff, and the negation witness aliased_create_changes_system for the variant that iterates the caller's table. The store model "
          "runs in the driver and is compared after EVERY operation of random edit/create/solve histories with the hidden object state of the real System and of every PRISM object created so far.",
          "4 C16", "Lean 4 proof (decision logic + object-store invariant by induction over operation histories) + differential correspondence"),
+ 'C17': ("Lean theorems at formula level (Model/UnitConv.lean): kelvin_formula/linear, celsius_offset (K - 273.15) and celsius_affine, inv_angstrom_formula/linear, inv_nanometer_is_ten_inv_angstrom, "
+         "concentration_formula/linear (rho*/(d_c^3 N_A) in mol/L), volume_fraction_formula (rho* (4/3) pi (d/2)^3 = rho* pi d^3/6) and linear, elementwise. The Lean content is small and said to be small: "
+         "pint's unit algebra, registry and constants are trusted and compared numerically on every run. Every documented method is called on scalars and arrays for random characteristic lengths/energies with "
+         "up to 12 significant digits in every accepted unit string, with several converters alive in one process; result type, magnitude (formula model and independent textbook formula with the 2019 SI "
+         "constants, rtol 1e-12), units/dimensionality, linearity/affinity and element-wise behaviour are evaluated on the implementation.",
+         "4 C17", "Lean 4 proof (formula algebra, small) + differential correspondence with pint"),
 }
 NA = {
  'C18': ("not applicable: the Cython extension pyPRISM/trajectory/Debyer.pyx cannot be built in this sandbox (the shipped Debyer.c was generated by Cython 0.28 and does not "
